@@ -23,7 +23,7 @@ ASSUMPTIONS = [
 
 def plan(tier, seed):
     n = 200 if tier == 'quick' else 3500
-    return [{'world': k, 'version': v, 'n': n} for v in tables.versions() for k in ('segment', 'field', 'message')]
+    return [{'world': k, 'version': v, 'n': n} for v in tables.versions() for k in ('segment', 'field', 'message', 'component')]
 
 
 class InvGuard(object):
